@@ -39,6 +39,8 @@ type c03case struct {
 	Src     string `json:"src"`
 	Writing *c03w  `json:"writing,omitempty"`
 	NoEval  bool   `json:"noeval,omitempty"`
+	Re      *c03re `json:"reeval,omitempty"` // re-evaluation stream (c03reeval.go)
+	Step    int    `json:"step,omitempty"`
 }
 
 type c03op struct {
@@ -214,7 +216,7 @@ type c03var struct {
 
 var c03vars = []c03var{
 	{"n0", 0.0, "num"}, {"n1", 1.0, "num"}, {"nm", -1.0, "num"}, {"nf", 2.5, "num"}, {"n7", 7.0, "num"},
-	{"sa", "a", "str"}, {"sb", "b", "str"}, {"bt", true, "bool"}, {"bf", false, "bool"},
+	{"sa", "a", "str"}, {"sb", "b", "str"}, {"sab", "ab", "str"}, {"sre", "a.*", "str"}, {"srb", "^b", "str"}, {"bt", true, "bool"}, {"bf", false, "bool"},
 	{"nu", nil, "null"}, {"l12", []interface{}{1.0, 2.0}, "list"},
 	{"ls", []interface{}{"a", true, nil, 2.5}, "list"},
 }
@@ -456,6 +458,46 @@ func c03rxTable(n *parser.ASTNode, vs parser.Scope, erp *interpreter.ECALRuntime
 	}
 }
 
+// c03obsTerm renders the outcome of one evaluation of ast as a Run/RunC03.obs term.
+func c03obsTerm(c *Ctx, ast *parser.ASTNode, er callResult) string {
+	switch {
+	case er.TimedOut:
+		c.Dist["not_evaluated_timeout"]++
+		return "ObsNone"
+	case er.Panicked:
+		c.Dist["eval_panic"]++
+		return "ObsPanic"
+	case er.Err != nil:
+		cls := 3
+		detail := ""
+		var path []int
+		if re, ok := er.Err.(*util.RuntimeError); ok {
+			switch re.Type {
+			case util.ErrNotANumber:
+				cls = 0
+			case util.ErrNotABoolean:
+				cls = 1
+			case util.ErrNotAList:
+				cls = 2
+			}
+			detail = re.Detail
+			if p, ok := c03findPath(ast, re.Node, nil); ok {
+				path = p
+			} else {
+				path = []int{999}
+			}
+		}
+		ps := []string{}
+		for _, p := range path {
+			ps = append(ps, fmt.Sprintf("%d%%nat", p))
+		}
+		c.Dist[fmt.Sprintf("eval_error_class_%d", cls)]++
+		return fmt.Sprintf("(ObsErr %d %s %s)", cls, c03b(detail), CoqList(ps))
+	}
+	c.Dist["eval_value"]++
+	return "(ObsVal " + c03coqValue(er.Val) + ")"
+}
+
 func c03one(c *Ctx, d c03case) {
 	src := d.Src
 	lr := guarded(3*time.Second, func() (interface{}, error) { return parser.LexToList("c03", src), nil })
@@ -500,42 +542,7 @@ func c03one(c *Ctx, d c03case) {
 			er := guarded(3*time.Second, func() (interface{}, error) {
 				return ast.Runtime.Eval(vs, make(map[string]interface{}), erp.NewThreadID())
 			})
-			switch {
-			case er.TimedOut:
-				c.Dist["not_evaluated_timeout"]++
-			case er.Panicked:
-				obs = "ObsPanic"
-				c.Dist["eval_panic"]++
-			case er.Err != nil:
-				cls := 3
-				detail := ""
-				var path []int
-				if re, ok := er.Err.(*util.RuntimeError); ok {
-					switch re.Type {
-					case util.ErrNotANumber:
-						cls = 0
-					case util.ErrNotABoolean:
-						cls = 1
-					case util.ErrNotAList:
-						cls = 2
-					}
-					detail = re.Detail
-					if p, ok := c03findPath(ast, re.Node, nil); ok {
-						path = p
-					} else {
-						path = []int{999}
-					}
-				}
-				ps := []string{}
-				for _, p := range path {
-					ps = append(ps, fmt.Sprintf("%d%%nat", p))
-				}
-				obs = fmt.Sprintf("(ObsErr %d %s %s)", cls, c03b(detail), CoqList(ps))
-				c.Dist[fmt.Sprintf("eval_error_class_%d", cls)]++
-			default:
-				obs = "(ObsVal " + c03coqValue(er.Val) + ")"
-				c.Dist["eval_value"]++
-			}
+			obs = c03obsTerm(c, ast, er)
 		}
 	}
 	writing := "None"
@@ -576,7 +583,7 @@ var c03corpus = []string{
 }
 
 func runC03(c *Ctx) error {
-	c.Rule = "expression source texts: fixed corpus first; exhaustively all ordered pairs of the 20 binary operators in both groupings (minimal and redundant parentheses) and, for the 19 value operators, with each of the 3 prefix operators at a random position; every binary operator x operand-kind pair (5x5 kinds) and prefix operator x kind; seeded random trees up to depth 6 printed with minimal + random redundant parentheses and random space/tab/newline layout; operands from the pool {0,1,2.5,7,3,10,0.5,1e+2,\"a\",\"b\",'ab',\"a.*\",\"\",raw string,true,false,null, variables bound to 0,1,-1,2.5,7,\"a\",\"b\",true,false,null,[1,2],[\"a\",true,null,2.5], an unbound variable}; non-trivial = more than 2 tokens; distinct by source text"
+	c.Rule = "expression source texts: fixed corpus first; exhaustively all ordered pairs of the 20 binary operators in both groupings (minimal and redundant parentheses) and, for the 19 value operators, with each of the 3 prefix operators at a random position; every binary operator x operand-kind pair (5x5 kinds) and prefix operator x kind; re-evaluation stream: for each of the 19 binary and 3 prefix operators the expression over the variables va, vb is parsed and validated ONCE and the same runtime tree is evaluated 4 times under different bindings from the value pool (the last one returning to the first; for `like` the pattern variable changes), plus the same expression as the body of a function called 4 times and as the body of a loop over 4 bindings; seeded random trees up to depth 6 printed with minimal + random redundant parentheses and random space/tab/newline layout; operands from the pool {0,1,2.5,7,3,10,0.5,1e+2,\"a\",\"b\",'ab',\"a.*\",\"\",raw string,true,false,null, variables bound to 0,1,-1,2.5,7,\"a\",\"b\",true,false,null,[1,2],[\"a\",true,null,2.5], an unbound variable}; non-trivial = more than 2 tokens; distinct by source text"
 	c.BeginCases("From Coq Require Import List ZArith.\nFrom Ecal Require Import Common.Bytes Common.Hex Common.Ast Model.Pratt Model.Expr Spec.ExprGrammarSpec Run.RunC03.\nImport ListNotations.\nDefinition ENV : list (bytes * ovalue) := "+c03envTerm()+".", "case", 300)
 
 	if c.Replay != "" {
@@ -584,7 +591,11 @@ func runC03(c *Ctx) error {
 		if err := c.LoadReplay(&d); err != nil {
 			return err
 		}
-		c03one(c, d)
+		if d.Re != nil {
+			c03reeval(c, *d.Re)
+		} else {
+			c03one(c, d)
+		}
 		return nil
 	}
 	emit := func(w *c03w, wild bool) {
@@ -693,6 +704,7 @@ func runC03(c *Ctx) error {
 		n++
 	}
 	c.Extra["random_cases"] = n
+	c.Extra["reevaluation_cases"] = c03reevalStreams(c)
 	c.Exhaustive = false
 	return nil
 }
